@@ -37,6 +37,8 @@ def confirm(prop, d, module, main, exec_args):
 def run_property(prop, tier, seed, replay=None):
     t0 = time.time()
     spec = P.PROPS[prop]
+    if 'custom' in spec:
+        return spec['custom'](prop, tier, seed, replay)
     known = vlib.load_known()
     cov = dict(states=0, transitions=0, traces_validated_against_impl=0, samples=[], evaluations=0,
                distinct_nontrivial=0, skipped_unspecified=0, workloads={}, model_runs={}, configs=[],
@@ -95,6 +97,8 @@ def run_property(prop, tier, seed, replay=None):
             for d in r['diags']:
                 d['limit_active'] = d.get('lim', -1) != -1
                 ps = P.props_of(d)
+                if w.get('attribute_all') and d.get('kind') in ('fields', 'valid', 'differ', 'cdiffer', 'crashed'):
+                    ps.add(prop)       # a workload built for this property alone (e.g. the C11 byte sweep)
                 if 'SPEC' in ps:
                     spec_problems.append('spec self-check failed: ' + vlib.describe(d))
                     continue
